@@ -4,6 +4,8 @@ so the file stays right after a rebase). 'known' entries and comments are kept a
 import json, os, re, subprocess
 ROOT = os.path.dirname(os.path.dirname(os.path.abspath(__file__)))
 RULES = [
+    (r'bytes \+= makes a new object', 'C13'),
+    (r'unexpected Go type|non-string raise TypeError|not pairs raises ValueError', 'C10'),
     (r'decorators of a function with default', 'C12'),
     (r'set member of a type the set cannot hold', 'C10'),
     (r'worth of a tab|backslash-newline inside a string', 'C06'),
